@@ -24,6 +24,9 @@ Theorem C16_sizeof_values :
 Proof. vm_compute. repeat split. Qed.
 Print Assumptions C16_sizeof_values.
 
+(* Ranges such as `0 <= np < 2 ^ 31`, `0 <= displ < 2 ^ 31` are the TYPE of the parameter (`int`, documented as >= 0), not a
+   restriction: the byte counts np * size (up to 2^31 * 16) and offsets displ * size are size_t in the code and u64 in the
+   model, and do not wrap anywhere on this range (MpiProofs.copy_len_small). *)
 (* Gather / Allgather / Alltoall with one rank: for every datatype, count >= 0, buffer contents:
    success, the contribution is element 0.. of the receive buffer, nothing else changes.
    Full-strength statement = this one without `contiguous_ok`; it is refuted below (F-C16b). *)
@@ -86,11 +89,15 @@ Theorem C16_double_int_exact : forall n displ, 0 <= n < 2 ^ 31 -> 0 <= displ < 2
 Proof. exact double_int_exact. Qed.
 Print Assumptions C16_double_int_exact.
 
-(* Pack: succeeds iff position + count * size <= outsize; then the elements' data bytes are laid out at
-   *position and *position advances by count * size; otherwise nothing changes.  No copy leaves a buffer. *)
+(* Pack (with the repaired space test `size > outsize - *position`): for EVERY position and buffer size in [0, 2^31) (the
+   range of the `int` parameters; also position > outsize) and every count with count * size < 2^31 (the domain of
+   sc_MPI_Pack_size, whose product is an `int`: F-C16d): succeeds iff position + count * size <= outsize; then the elements'
+   data bytes are laid out at *position and *position advances by count * size; otherwise nothing changes.  No copy
+   leaves a buffer. *)
 Theorem C16_pack : forall inbuf incount t outbuf outsize pos,
   valid_dt t -> 0 <= incount -> contiguous_ok t incount 0 ->
-  incount * extent t <= len inbuf -> len outbuf = outsize -> 0 <= pos -> pos + incount * type_size t < 2 ^ 31 ->
+  incount * extent t <= len inbuf -> len outbuf = outsize -> 0 <= pos < 2 ^ 31 -> outsize < 2 ^ 31 ->
+  incount * type_size t < 2 ^ 31 ->
   let '(rc, out', pos') := sc_pack inbuf incount t outbuf outsize pos in
   (rc = SUCCESS <-> pos + incount * type_size t <= outsize) /\
   (rc <> SUCCESS -> out' = Some outbuf /\ pos' = pos) /\
@@ -100,7 +107,8 @@ Print Assumptions C16_pack.
 
 Theorem C16_unpack : forall inbuf insize pos outbuf outcount t,
   valid_dt t -> 0 <= outcount -> contiguous_ok t outcount 0 ->
-  len inbuf = insize -> outcount * extent t <= len outbuf -> 0 <= pos -> pos + outcount * type_size t < 2 ^ 31 ->
+  len inbuf = insize -> outcount * extent t <= len outbuf -> 0 <= pos < 2 ^ 31 -> insize < 2 ^ 31 ->
+  outcount * type_size t < 2 ^ 31 ->
   let '(rc, out', pos') := sc_unpack inbuf insize pos outbuf outcount t in
   (rc = SUCCESS <-> pos + outcount * type_size t <= insize) /\
   (rc <> SUCCESS -> out' = Some outbuf /\ pos' = pos) /\
@@ -113,18 +121,31 @@ Theorem C16_pack_size : forall incount t, valid_dt t -> 0 <= incount -> incount 
 Proof. exact pack_size_spec. Qed.
 Print Assumptions C16_pack_size.
 
-(* F-C16c: `*position + size > outsize` is computed in `int`: the statement of C16_pack without its last hypothesis
-   (pos + incount * size < 2^31) is false of the code.  A legal position in a buffer of INT_MAX bytes and a request that
-   does not fit: accepted, the copy leaves the buffer, the position becomes negative. *)
-Theorem C16_pack_overflow_refuted :
+(* F-C16c (repaired): regression guard.  With the OLD test `*position + size > outsize` (sc_pack_old) a legal position in a
+   buffer of INT_MAX bytes and a request of 2 bytes that does not fit are accepted, the copy leaves the buffer, the position
+   becomes INT_MIN; the repaired sc_pack refuses the same call and changes nothing. *)
+Theorem C16_pack_overflow_old_refuted :
   let t := h_MPI_BYTE in let incount := 2 in let outsize := 2 ^ 31 - 1 in let pos := 2 ^ 31 - 2 in
   valid_dt t /\ 0 <= incount /\ 0 <= pos <= outsize /\ outsize < 2 ^ 31 /\ incount * type_size t < 2 ^ 31 /\
   outsize < pos + incount * type_size t /\
   forall inbuf outbuf, len outbuf = outsize -> incount * extent t <= len inbuf ->
-    let '(rc, out', pos') := sc_pack inbuf incount t outbuf outsize pos in
-    rc = SUCCESS /\ out' = None /\ pos' = - 2 ^ 31.
-Proof. exact pack_overflow_refuted. Qed.
-Print Assumptions C16_pack_overflow_refuted.
+    (let '(rc, out', pos') := sc_pack_old inbuf incount t outbuf outsize pos in
+     rc = SUCCESS /\ out' = None /\ pos' = - 2 ^ 31) /\
+    sc_pack inbuf incount t outbuf outsize pos = (ERR_NO_SPACE, Some outbuf, pos).
+Proof. exact pack_overflow_old_refuted. Qed.
+Print Assumptions C16_pack_overflow_old_refuted.
+
+(* F-C16d: `count * size < 2^31` in C16_pack / C16_unpack is the exact domain: the product of sc_MPI_Pack_size is an `int`.
+   Without it the statement is false of the code: 2^28 long doubles (4 GiB) are ACCEPTED into a buffer of 100 bytes (the
+   product wraps to 0): SUCCESS, nothing packed, position unchanged *)
+Theorem C16_pack_size_overflow_refuted :
+  let t := h_MPI_LONG_DOUBLE in let incount := 2 ^ 28 in let outsize := 100 in let pos := 0 in
+  valid_dt t /\ 0 <= incount < 2 ^ 31 /\ 0 <= pos <= outsize /\ outsize < 2 ^ 31 /\ contiguous_ok t incount 0 /\
+  outsize < pos + incount * type_size t /\ pack_bytes incount t = 0 /\
+  forall inbuf outbuf, len outbuf = outsize ->
+    sc_pack inbuf incount t outbuf outsize pos = (SUCCESS, Some outbuf, pos).
+Proof. exact pack_size_overflow_refuted. Qed.
+Print Assumptions C16_pack_size_overflow_refuted.
 
 (* code and position without the buffers (used by the run for positions near INT_MAX) are those of sc_pack *)
 Theorem C16_pack_codes : forall inbuf incount t outbuf outsize pos,
@@ -328,12 +349,14 @@ Proof. exact gen_sizeof_mpi. Qed.
 Print Assumptions C16_gen_sizeof_mpi.
 
 (* ================= histories ================= *)
-(* Pack several items one after the other into one buffer (each call continues at the position the previous one left),
+(* (item_ok: valid datatype, count >= 0, count * size bytes of data, count * size < 2^31; buffers shorter than 2^31 bytes:
+   `outsize` is an int; NO bound on the sum of the items)
+   Pack several items one after the other into one buffer (each call continues at the position the previous one left),
    then Unpack them with the same datatypes and counts from the same start: every Unpack delivers the bytes that were
    packed, the position after the i-th Pack equals the position after the i-th Unpack for every i, the final positions
    agree, the buffer outside [pos, final) is untouched *)
 Theorem C16_pack_unpack_roundtrip : forall items outs buf pos buf' posN ps, Forall item_ok items ->
-  Forall2 (fun it o => len (it_data it) <= len o) items outs -> 0 <= pos <= len buf -> pos + total items < 2 ^ 31 ->
+  Forall2 (fun it o => len (it_data it) <= len o) items outs -> 0 <= pos <= len buf -> len buf < 2 ^ 31 ->
   pack_seq items buf pos = Some (buf', posN, ps) ->
   unpack_seq (shape_of items outs) buf' pos = Some (delivered items outs, posN, ps) /\
   posN = pos + total items /\ posN <= len buf /\ len buf' = len buf /\
@@ -342,13 +365,13 @@ Proof. exact pack_unpack_roundtrip. Qed.
 Print Assumptions C16_pack_unpack_roundtrip.
 
 (* a sequence of Packs is accepted as a whole iff everything fits: some call refuses otherwise *)
-Theorem C16_pack_seq_refuses : forall items buf pos, Forall item_ok items -> 0 <= pos <= len buf -> pos + total items < 2 ^ 31 ->
+Theorem C16_pack_seq_refuses : forall items buf pos, Forall item_ok items -> 0 <= pos <= len buf -> len buf < 2 ^ 31 ->
   (pack_seq items buf pos = None <-> len buf < pos + total items).
 Proof. exact pack_seq_refuses. Qed.
 Print Assumptions C16_pack_seq_refuses.
 
 Theorem C16_pack_twice_is_pack_once : forall t n1 n2 d1 d2 buf pos, item_ok (t, n1, d1) -> item_ok (t, n2, d2) ->
-  0 <= pos <= len buf -> pos + len d1 + len d2 < 2 ^ 31 ->
+  0 <= pos <= len buf -> len buf < 2 ^ 31 -> len d1 + len d2 < 2 ^ 31 ->
   match pack_seq [(t, n1, d1); (t, n2, d2)] buf pos, pack_seq [(t, n1 + n2, d1 ++ d2)] buf pos with
   | Some (b, p, _), Some (b', p', _) => b = b' /\ p = p'
   | None, None => True
@@ -358,15 +381,15 @@ Proof. exact pack_twice_is_pack_once. Qed.
 Print Assumptions C16_pack_twice_is_pack_once.
 
 (* the position at the boundary: exact fit, one byte too many, nothing to pack at position = size *)
-Theorem C16_pack_boundary : forall t n d buf pos, item_ok (t, n, d) -> 0 <= pos <= len buf -> pos + len d < 2 ^ 31 ->
+Theorem C16_pack_boundary : forall t n d buf pos, item_ok (t, n, d) -> 0 <= pos <= len buf -> len buf < 2 ^ 31 ->
   (pos + len d = len buf -> sc_pack d n t buf (len buf) pos = (SUCCESS, Some (take pos buf ++ d), len buf)) /\
   (pos + len d = len buf + 1 -> sc_pack d n t buf (len buf) pos = (ERR_NO_SPACE, Some buf, pos)) /\
   (n = 0 -> sc_pack d n t buf (len buf) pos = (SUCCESS, Some buf, pos)).
 Proof. exact pack_boundary. Qed.
 Print Assumptions C16_pack_boundary.
 
-Theorem C16_unpack_boundary : forall t n o buf pos, valid_dt t -> 0 <= n -> n * type_size t <= len o -> 0 <= pos <= len buf ->
-  pos + n * type_size t < 2 ^ 31 ->
+Theorem C16_unpack_boundary : forall t n o buf pos, valid_dt t -> 0 <= n -> n * type_size t <= len o ->
+  n * type_size t < 2 ^ 31 -> 0 <= pos <= len buf -> len buf < 2 ^ 31 ->
   (pos + n * type_size t = len buf ->
    sc_unpack buf (len buf) pos o n t = (SUCCESS, Some (drop pos buf ++ drop (n * type_size t) o), len buf)) /\
   (pos + n * type_size t = len buf + 1 -> sc_unpack buf (len buf) pos o n t = (ERR_NO_SPACE, Some o, pos)) /\
@@ -403,7 +426,8 @@ Example C16_ex_roundtrip :
   = Some ([[1;2;0]; [3;4;5;6]; [7;8;9;10;0]], 13, [5; 9; 13]) /\
   pack_seq items (repeat 238 12) 3 = None.
 Proof.
-  split; [repeat constructor; try (eexists; vm_compute; reflexivity); vm_compute; congruence|]. vm_compute. repeat split.
+  split; [repeat (apply Forall_cons || apply Forall_nil); (split; [eexists; vm_compute; reflexivity|vm_compute; repeat split; congruence])|].
+  vm_compute. repeat split.
 Qed.
 
 Example C16_ex_gen_completion : stub_testall 4 (reqfun [REQUEST_NULL; REQUEST_NULL; REQUEST_NULL]) 3 (-5) = Some (1, 1, 0) /\
